@@ -26,6 +26,10 @@ type ConcCase struct {
 	Weights     Weights
 	SharedPct   int // % of allocations that use a handle shared between clients
 	OtherPct    int // % of affinity-release steps aimed at another host's affinities (default 30)
+	// MultiBlockRelease: every client starts by allocating 3+3 addresses under one handle (which
+	// spans several /30 blocks) and releasing them all in ONE ReleaseIPs call, the shape that makes
+	// ReleaseIPs fan out one goroutine per block over a shared pre-fetched handle.
+	MultiBlockRelease bool
 	// Epilogue: after the last phase a fresh client on a PRNG-chosen host claims every block of
 	// every pool (ClaimAffinity on the pool CIDRs), fault-free.  This makes latent inconsistencies
 	// (for example a confirmed affinity whose block is gone) collide with a new owner.
@@ -148,6 +152,26 @@ func (cc *ConcCase) script(w *World, st *clientState) Script {
 				return "" // own
 			}
 			return hosts[r.Intn(len(hosts))]
+		}
+		if cc.MultiBlockRelease && st.hseq == 0 {
+			h := fmt.Sprintf("c%d-multi", lc.ID)
+			st.hseq++
+			st.handles = append(st.handles, h)
+			var rel []RelOpt
+			for k := 0; k < 2; k++ {
+				rec := exec(Step{Kind: KAutoAssign, Handle: h, Num4: 3})
+				if rec.Crashed {
+					return
+				}
+				for _, a := range rec.IPs {
+					rel = append(rel, RelOpt{Addr: a, Handle: h})
+				}
+			}
+			if len(rel) > 0 {
+				if exec(Step{Kind: KReleaseIPs, Rel: rel}).Crashed {
+					return
+				}
+			}
 		}
 		for i := 0; i < cc.NOps; i++ {
 			var s Step
